@@ -820,6 +820,7 @@ func startServers(serverList []Server, inst *Instance, restartFds map[string]res
 		if pc == nil {
 			pc, err = s.ListenPacket()
 			if err != nil {
+				pc = nil // whatever came back with the error is not a connection to close
 				return fmt.Errorf("ListenPacket: %v", err)
 			}
 		}
